@@ -460,7 +460,7 @@ def record_side(ctx, quick):
     nfail = 0
     nlines = 0
     sweeps = sweep_requests()
-    fmts = [DEFAULT_FMT, ALL_ATOMS_FMT] + [random_format(rng) for _ in range(4 if quick else 40)]
+    fmts = [DEFAULT_FMT, ALL_ATOMS_FMT] + [random_format(rng) for _ in range(4 if quick else 12)]
     app = {"acts": [("start", 200, 2), ("return",), ("write", b"ok")], "file": None}
     plan = []
     for fi, fmt in enumerate(fmts):
@@ -470,7 +470,7 @@ def record_side(ctx, quick):
                 if quick and fi == 1 and si % 2:
                     continue
                 plan.append((KINDS[(si + fi) % 3], fmt, field, data))
-            elif (si + fi) % (7 if quick else 1) == 0:
+            elif (si + fi) % (7 if quick else 2) == 0:
                 plan.append((KINDS[(si + fi) % 3], fmt, field, data))
     worlds = {}
     try:
